@@ -248,8 +248,8 @@ K12 = K12M + 'K12_XOF'
 H1 = 'self._hash1._state._raw_pointer'
 H2 = 'self._hash2._state._raw_pointer'
 K12_FIELDS = ['self._custom', 'self._state', 'self._padding', 'self._hash1', 'self._length1', 'self._hash2', 'self._length2', 'self._ctr']
-K12_UPDATE_MOD = ['self._state', 'self._length1', 'self._length2', 'self._hash2', 'self._ctr', H1 + '.g_data',
-                  H2 + '.g_data', H2 + '.g_sq', H2 + '.g_pad', H2 + '.g_out', 'self._hash2._is_squeezing']
+K12_UPDATE_MOD = [H2 + '.g_data', H2 + '.g_sq', H2 + '.g_pad', H2 + '.g_out', 'self._hash2._is_squeezing',
+                  'self._state', 'self._length1', 'self._length2', 'self._hash2', 'self._ctr', H1 + '.g_data']
 # loop of K12_XOF.update over the 8192-byte chunks (ordinal 0): structural invariant
 K12_LOOP = {0: {'invariant': ['all((0 <= index, index <= len_data, len_data == len(data)))', 'self._state == 3', 'valid(self)'],
                 'havoc': [H1 + '.g_data', H2 + '.g_data', H2 + '.g_sq', H2 + '.g_pad', H2 + '.g_out', 'self._hash2._is_squeezing'],
@@ -269,34 +269,35 @@ def add_k12(reg):
     #   8192-byte chunks of T are a prefix of those of T || s" over a recursive spec function, which the clause language cannot
     #   state without a quantifier / an assumed fact.  Covered by bounded/hashes.py (cuts at every offset in 8180..8200).
     # NOT PROVED: bytearray arguments of update(): `memoryview(bytearray)` is outside the PYVC subset."""
-    reg.add(Contract(K12M + '_length_encode', params={'x': 'int'}, requires=['0 <= x', 'x < pow2(2040)'],
+    # total: outside the RFC's domain 0 <= x < 256**255 the byte count does not fit one byte (bchr) / long_to_bytes refuses -> ValueError
+    reg.add(Contract(K12M + '_length_encode', params={'x': 'int'},
                      ensures={'value': 'result == spec.k12.length_encode(x)', 'size': '1 <= len(result) and len(result) <= 256'},
-                     raises={}, modifies=[], result='bytes', options=opts(int_lemmas=[2040])))
+                     raises={'ValueError': ('iff', 'x < 0 or x >= pow2(2040)')}, modifies=[], result='bytes', options=opts(int_lemmas=[2040])))
     T = 'obj:' + TURBO
     reg.add(ClassContract(K12, fields={'_custom': 'bytes', '_state': 'enum(1, 2, 3, 4)', '_padding': 'int|none', '_hash1': T, '_length1': 'int',
                                        '_hash2': T + '|none', '_length2': 'int', '_ctr': 'int'},
                           # (conjunctions are written all((..)): evaluated without forking, which keeps path exploration cheap)
-                          valid=['len(self._custom) >= 1', 'self._hash1._capacity == 32',
+                          valid=['all((len(self._custom) >= 1, len(self._custom) < pow2(2039)))', 'self._hash1._capacity == 32',
                                  'self._state != 4 ==> not self._hash1._is_squeezing',
                                  'self._state == 4 ==> all((self._padding in (0x06, 0x07), self._hash1._domain == self._padding))',
                                  # SHORT_MSG: everything so far is in the final node, and it still fits one chunk together with C
                                  'self._state == 1 ==> (self._hash2 is None and all((self._length1 == len(%s.g_data), '
                                  'any((self._length1 == 0, self._length1 + len(self._custom) <= 8192)))))' % H1,
                                  # LONG_MSG_S0: still filling the first chunk
-                                 'self._state == 2 ==> all((0 <= self._length1, self._length1 < 8192))',
+                                 # (entered only when M || C is certain to exceed one chunk)
+                                 'self._state == 2 ==> all((0 <= self._length1, self._length1 < 8192, self._length1 + len(self._custom) > 8192))',
                                  # LONG_MSG_SX: hash2 holds the first _length2 bytes of chunk number _ctr
-                                 'self._state == 3 ==> (self._hash2 is not None and self._hash2 is not self._hash1 and all((self._hash2._capacity == 32, '
+                                 'self._state == 3 ==> (self._hash2 is not None and self._hash2 is not self._hash1 and valid(self._hash2) and all((self._hash2._capacity == 32, '
                                  'self._hash2._domain == 0x0B, not self._hash2._is_squeezing, 0 <= self._length2, self._length2 < 8192, '
                                  'self._length2 == len(%s.g_data), self._ctr >= 1)))' % H2]))
     cust = '(b"" if custom is None else custom)'
     reg.add(Contract(K12 + '.__init__', params={'data': 'bytes|memoryview|none', 'custom': 'bytes|none'}, self_type='new:' + K12,
-                     requires=['custom is None or len(custom) < pow2(2040)'], raises={},
+                     requires=['custom is None or len(custom) < pow2(2038)'], raises={},
                      ensures={'custom': 'self._custom == %s + spec.k12.length_encode(len(%s))' % (cust, cust),
                               'empty': 'data is None ==> (self._state == 1 and %s.g_data == b"")' % H1,
                               'short': '(data is not None and self._state == 1) ==> %s.g_data == bytes(data)' % H1,
                               'absorbing': 'self._state != 4', 'valid': 'valid(self)'},
-                     modifies=K12_FIELDS, inline=[K12 + '.update'], opaque=['spec.k12.length_encode'],
-                     options=opts(assume_valid=False, callee_loops={K12 + '.update': K12_LOOP})))
+                     modifies=K12_FIELDS, opaque=['spec.k12.length_encode'], options=opts(assume_valid=False)))
     preds = {('update', 'read'): 'self._state != 4', ('read',): 'self._state == 4'}
     forb, post = fsm_clauses('XOF', preds, 'update')
     reg.add(Contract(K12 + '.update', params={'data': 'bytes|memoryview'}, requires=['valid(self)'],
@@ -305,12 +306,14 @@ def add_k12(reg):
                                   # single-node case (KT128 for |S| <= 8192): the final node grows by exactly the data
                                   short='self._state == 1 ==> %s.g_data == old(%s.g_data) + bytes(data)' % (H1, H1),
                                   first_chunk='self._state == 2 ==> %s.g_data == old(%s.g_data) + bytes(data)' % (H1, H1),
-                                  monotone='self._state >= old(self._state)'),
+                                  monotone='self._state >= old(self._state)',
+                                  leaves_first_chunk='(old(self._state) == 2 and old(self._length1) + len(data) >= 8192) ==> self._state == 3'),
                      returns='self', modifies=K12_UPDATE_MOD, loops=K12_LOOP, options=opts()))
     forb, post = fsm_clauses('XOF', preds, 'read')
     assert forb == 'False'
     reg.add(Contract(K12 + '.read', params={'length': 'nat'}, requires=['valid(self)'],
-                     raises={'OverflowError': ('iff', 'length > ' + MAXSIZE)},
+                     # (ValueError: only in the multi-chunk case, when the number of chunks leaves the domain of length_encode, 256**255)
+                     raises={'OverflowError': ('only_if', 'length > ' + MAXSIZE), 'ValueError': ('only_if', 'self._state in (2, 3)')},
                      ensures=dict(post, valid='valid(self)',
                                   # |S| <= 8192: KT128(M, C, L) = TurboSHAKE128(M || C || length_encode(|C|), 0x07, L)
                                   short='old(self._state) == 1 ==> result == spec.hashprim.keccak_stream(32, 12, 0x07, '
@@ -321,10 +324,9 @@ def add_k12(reg):
                                   position='old(self._state) == 4 ==> %s.g_out == old(%s.g_out) + length' % (H1, H1),
                                   # multi-chunk case: final domain byte 0x06, single-node case 0x07
                                   domain='%s.g_sq and (old(self._state) == 1 ==> %s.g_pad == 0x07) and (old(self._state) in (2, 3) ==> %s.g_pad == 0x06)' % (H1, H1, H1)),
-                     modifies=None, result='bytes', inline=[K12 + '.update'], opaque=['spec.k12.length_encode'],
-                     options=opts(callee_loops={K12 + '.update': K12_LOOP})))
+                     modifies=None, result='bytes', opaque=['spec.k12.length_encode'], options=opts()))
     reg.add(Contract(K12M + 'new', params={'data': 'bytes|memoryview|none', 'custom': 'bytes|none'},
-                     requires=['custom is None or len(custom) < pow2(2040)'], raises={},
+                     requires=['custom is None or len(custom) < pow2(2038)'], raises={},
                      ensures={'custom': 'result._custom == %s + spec.k12.length_encode(len(%s))' % (cust, cust),
                               'absorbing': 'result._state != 4', 'valid': 'valid(result)'},
                      modifies=[], result='obj:' + K12, opaque=['spec.k12.length_encode'], options=opts()))
